@@ -36,7 +36,8 @@ def chunkSize (rate : Rat) : Int := pyRound (defaultChunkDuration * rate)
 def mtsChunkSize (chunkDuration rate : Rat) : Int := pyRound (chunkDuration * rate)
 
 /-- mtscomp.py:324-335 `Writer._compute_chunk_bounds`: `list(range(0, n, cs))`, plus `n` when the last
-bound is smaller.  `none` = the code raises (`chunk_bounds[-1]` of an empty list: `n = 0`). -/
+bound is smaller.  `none` = the code raises for `n = 0` (`chunk_bounds[-1]` of an empty list; the real writer asserts a non-empty
+recording even earlier: `AssertionError`). -/
 def mtsTable (n cs : Nat) : Option (List Nat) :=
   let b := pyRange 0 n cs
   match b.getLast? with
